@@ -28,6 +28,8 @@ type Server struct {
 	IDs []int64
 	// Answer, when non-nil, is asked first for the rows of a statement.
 	Answer func(sql string) (cols []string, rows [][]driver.Value, ok bool)
+	// ExecArgs collects the arguments of prepared statements executed with arguments (COPY rows).
+	ExecArgs [][]driver.Value
 	// Eval, when non-nil, answers every query (an error is returned to the caller).
 	Eval func(sql string) (cols []string, rows [][]driver.Value, err error)
 }
@@ -87,6 +89,11 @@ type stmt struct {
 func (s *stmt) Close() error  { return nil }
 func (s *stmt) NumInput() int { return -1 }
 func (s *stmt) Exec(args []driver.Value) (driver.Result, error) {
+	if len(args) > 0 {
+		s.c.s.mu.Lock()
+		s.c.s.ExecArgs = append(s.c.s.ExecArgs, append([]driver.Value{}, args...))
+		s.c.s.mu.Unlock()
+	}
 	return s.c.ExecContext(context.Background(), s.q, nil)
 }
 func (s *stmt) Query(args []driver.Value) (driver.Rows, error) { return s.c.s.query(s.q) }
